@@ -326,6 +326,11 @@ func pickPatLen(c *core.Ctx) int {
 
 func pickOpts(c *core.Ctx) gen.PatOpts {
 	r := c.Rng
+	if r.Intn(12) == 0 {
+		// written almost entirely with classes, negations and marks: a few dozen positions take
+		// several hundred characters of pattern text
+		return gen.PatOpts{Class: 950, Neg: 300, Oblig: 300}
+	}
 	switch r.Intn(5) {
 	case 0: // plain bases
 		return gen.PatOpts{LowCx: 200}
@@ -544,6 +549,7 @@ func init() {
 			{Name: "best", N: core.Const(800, 24000), Run: runBest, Race: true, NRace: core.Const(24, 160)},
 			{Name: "locate", N: core.Const(400, 12000), Run: runLocate},
 			{Name: "concurrent", N: core.Const(24, 240), Run: runConcurrent, Race: true, NRace: core.Const(6, 24), TimeoutS: 600},
+			{Name: "last-use", N: core.Const(10, 40), Shard: 1, Run: runLastUse, TimeoutS: 900},
 			{Name: "sanitizer", N: core.Const(24, 240), Run: runSanitizer, TimeoutS: 900},
 			{Name: "sanitizer-ubsan", N: core.Const(1, 1), Run: runUbsan, TimeoutS: 1200},
 		},
